@@ -222,3 +222,17 @@ Proof.
   destruct (vertex_extreme S V v _ _ 1 1 HS Hv H1 H2) as [E _]; cbn [fst snd]; try lia.
   destruct v as [vi vj]. cbn [fst snd] in E. inversion E. lia.
 Qed.
+
+Example vertex_extreme_ex :
+  let S := [(0,0);(1,0);(2,0);(0,1);(1,1);(2,1);(0,2);(1,2);(2,2)] in
+  let V := [(0,0);(0,2);(2,2);(2,0)] in
+  HullSpec S V /\ In (0,2) V /\ In (0,2) S /\ (1 + 2) * fst (0,2) = 1 * fst (0,2) + 2 * fst (0,2)
+  /\ ~ interior S (0,2) /\ interior S (1,1) /\ ~ In (1,1) V.
+Proof.
+  cbv zeta. split; [apply hull_ok_sound; vm_compute; reflexivity|].
+  split; [cbn; tauto|]. split; [cbn; tauto|]. split; [reflexivity|].
+  split; [|split].
+  - intros [H _]. cbn in H. repeat (destruct H as [H|H]; [inversion H|]). exact H.
+  - split; cbn; tauto.
+  - intros H. cbn in H. repeat (destruct H as [H|H]; [inversion H|]). exact H.
+Qed.
